@@ -35,7 +35,7 @@ def loop(invariant=(), decreases=(), index="_i", types=None, modifies=None):
 class Contract:
     def __init__(self, name, params=None, requires=(), ensures=(), raises=(), returns=None, loops=None, modifies=None,
                  ensures_raise=(), props=(), verify_only=False, site_requires=None, status="proved", cases=None, note="", reify=None,
-                 max_paths=400, target=None, elements_are_keys=False):
+                 max_paths=400, target=None, elements_are_keys=False, ghost_entry=None):
         self.name = name
         self.params = params or {}
         self.requires = [requires] if isinstance(requires, str) else list(requires)
@@ -59,6 +59,7 @@ class Contract:
         self.reify = reify
         self.max_paths = max_paths
         self.elements_are_keys = elements_are_keys
+        self.ghost_entry = ghost_entry or {}  # ghost name -> expression evaluated over the pre-state
         self.target = target or name  # the function the contract is about (several contracts may share one)
         self.module_file = None
 
@@ -331,13 +332,18 @@ def _run_one(reg, I: Interp, c: Contract, fn, info, case):
     pre = Frame(fn, pre_locals, fn.__globals__, None)
     for k, v in pre_locals.items():
         fr.locals["old_" + k] = v
+    ghost0 = {"old_" + k: v for k, v in pre_locals.items()}
+    for gname, gexpr in c.ghost_entry.items():
+        gv = I.eval_clause(gexpr, pre, 0)
+        ghost0[gname] = gv
+        fr.locals[gname] = gv
     args, kwargs = _ordered_args(fn, info, values)
     for v in values.values():
         if isinstance(v, SObj) and c.name.endswith(".__init__") and v is values.get("self"):
             v.in_init = True
     tag = c.name
     try:
-        result = I.run_function(fn, args, kwargs, ghost={"old_" + k: v for k, v in pre_locals.items()})
+        result = I.run_function(fn, args, kwargs, ghost=ghost0)
     except PyExc as e:
         exc = e.cls
         pre.locals.update(I.ghost)
